@@ -111,7 +111,10 @@ def load(R):
     R.contract(B + "memoize", prop="C05", modifies=["self._memory_cache.cache", "self._memory_cache.lru_deque", "self._memory_cache.memory_usage", "self._memory_cache.refs", "self._data_source.values", "self._data_source.writes", "self._metadata_source.mementos", "self._metadata_source.writes", "heap:content_key"], types={"self": BE, "key_override": TOpt(TStr), "memento": M, "result": TObj()},
                requires=["COH(self)", "STORE_OK(self)",
                          # caller invariant (runner): the recorded result type describes the value
-                         "implies(same(memento.invocation_metadata.result_type, ResultType.null), result is None)"],
+                         "implies(same(memento.invocation_metadata.result_type, ResultType.null), result is None)",
+                         # C08 (fault case only): the memento being written is a new object, not the one already stored (the runner memoizes only what is
+                         # not memoized); otherwise assigning its content key would re-point a stored entry before the write succeeded
+                         "[C08] forall(str, lambda k: implies(k in self._metadata_source.mementos, not same(self._metadata_source.mementos[k], memento)))"],
                ensures=["implies(self.read_only, STORE_SAME(self) and COH(self))",
                         "[C19] implies(self.read_only, NO_WRITES(self) and implies(self._memory_cache is not None, UNCHANGED(self._memory_cache)))",
                         "implies(not self.read_only, COH(self) and STORE_OK(self))",
@@ -125,7 +128,8 @@ def load(R):
                         "[C07] forall(VersionedDataSourceKey, lambda v: implies(old(v in self._data_source.values), v in self._data_source.values and same(self._data_source.values[v], old(self._data_source.values[v]))))",
                         ],
                # C08: an I/O fault anywhere in the write leaves every stored memento readable; so does a crash between the interface calls
-               raises={"OSError+": ["[C08] STORE_OK(self)"], "AssertionError": ["False"]},
+               # ... and the cache must not claim a call the store does not hold (it would be reported as memoized and never written again)
+               raises={"OSError+": ["[C08] STORE_OK(self)", "[C08] COH(self)"], "AssertionError": ["False"]},
                labels={"step_invariant": ["[C08] STORE_OK(self)"]})
 
     R.spec("CURRENT", ["b", "m"], "KEY(m) in b._metadata_source.mementos and same(b._metadata_source.mementos[KEY(m)], m)")
